@@ -42,6 +42,8 @@ pub struct Acc {
     pub inconclusive: u64,
     pub ambiguous: u64,
     pub pathological: u64,
+    /// bucket of `evaluations` in which the last sample was taken (spreads samples over the run)
+    pub sample_mark: u64,
 }
 
 impl Acc {
@@ -75,9 +77,48 @@ impl Acc {
         }
     }
     pub fn sample(&mut self, every: u64, mk: impl FnOnce() -> Value) {
-        if self.samples.len() < 3 && self.evaluations % every == 1 {
+        let bucket = self.evaluations / every.max(1) + 1;
+        if self.samples.len() < 3 && bucket != self.sample_mark {
+            self.sample_mark = bucket;
             self.samples.push(mk());
         }
+    }
+    /// Serialised form used to hand a child process' observations to the parent.
+    pub fn to_json(&self) -> Value {
+        json!({
+            "evaluations": self.evaluations,
+            "nontrivial": self.nontrivial_enum + self.nontrivial_rand.len() as u64,
+            "counters": self.counters,
+            "viols": self.viols.iter().chain(self.sig_viols.iter()).map(|v| json!({"weight": v.weight, "what": v.what, "detail": v.detail})).collect::<Vec<_>>(),
+            "known": self.known,
+            "samples": self.samples,
+            "inconclusive": self.inconclusive,
+            "ambiguous": self.ambiguous,
+            "pathological": self.pathological,
+        })
+    }
+    pub fn from_json(v: &Value) -> Acc {
+        let mut a = Acc::default();
+        a.evaluations = v["evaluations"].as_u64().unwrap_or(0);
+        a.nontrivial_enum = v["nontrivial"].as_u64().unwrap_or(0);
+        if let Some(o) = v["counters"].as_object() {
+            for (k, x) in o {
+                a.counters.insert(k.clone(), x.as_u64().unwrap_or(0));
+            }
+        }
+        for x in v["viols"].as_array().cloned().unwrap_or_default() {
+            a.push_viol(Viol { weight: x["weight"].as_u64().unwrap_or(0) as usize, what: x["what"].as_str().unwrap_or("").to_string(), detail: x["detail"].clone() });
+        }
+        for k in v["known"].as_array().cloned().unwrap_or_default() {
+            if let Some(s) = k.as_str() {
+                a.known.push(s.to_string());
+            }
+        }
+        a.samples = v["samples"].as_array().cloned().unwrap_or_default();
+        a.inconclusive = v["inconclusive"].as_u64().unwrap_or(0);
+        a.ambiguous = v["ambiguous"].as_u64().unwrap_or(0);
+        a.pathological = v["pathological"].as_u64().unwrap_or(0);
+        a
     }
     pub fn merge(&mut self, o: Acc) {
         self.evaluations += o.evaluations;
